@@ -23,6 +23,7 @@ func init() {
 		TrieFrag(c, "R-FRAG", c.Pkg("immutable"))
 		TrieLevel(c, "R-LEVEL", c.Pkg("immutable"))
 		TrieResized(c, "R-RESIZED", c.Pkg("immutable"))
+		WrapperCtx(c, "R-SETCTX", c.Pkg("fp"), 2)
 	})
 }
 
